@@ -317,19 +317,23 @@ theorem restart_with_read_errors_changes_nothing (s : St β) (id key : Nat) (hi 
     simp [hs, hl, he]
 
 /-- Over EVERY history of restarts — each with any set of failing reads —, pairings, removals, value changes and stops:
-    the stored device id and key pair are the ones of the beginning, a later restart whose reads succeed runs under
-    them, and the stored configuration number never went down. -/
+    the stored device id and key pair are the ones of the beginning, the stored controller pairings are exactly the
+    pair / unpair operations of the history applied in order (no restart, faulty or not, touches them), and a later
+    restart whose reads succeed runs under that id and key pair and is discoverable exactly when no pairing is stored. -/
 theorem identity_persists_under_read_errors (s : St β) (id key : Nat) (hi : Identity id key s)
     (hist : List (Step × Faults)) (c : StartCfg) (hc : c.accepted = true) :
     (runF H s hist).store.uuid = some id ∧
     lookup id (runF H s hist).store.entities = some ⟨id, key, some key⟩ ∧
-    ∃ r, (startF H (runF H s hist) c {}).1.run = some r ∧ r.id = id ∧ r.devPub = key ∧ r.devPriv = some key := by
+    controllers id (runF H s hist).store.entities
+      = (hist.map (·.1)).foldl (ctlOp id) (controllers id s.store.entities) ∧
+    ∃ r, (startF H (runF H s hist) c {}).1.run = some r ∧ r.id = id ∧ r.devPub = key ∧ r.devPriv = some key ∧
+      r.discoverable = (controllers id (runF H s hist).store.entities).isEmpty := by
   have h1 := runF_identity H hi hist
-  refine ⟨h1.uuid, h1.dev, ?_⟩
+  refine ⟨h1.uuid, h1.dev, runF_controllers H hi hist, ?_⟩
   rw [startF_identity H h1 c {}]
   simp only [hc, Faults.load, Bool.or_self, and_self, if_true]
   rw [start_identity H h1 c hc]
-  exact ⟨_, rfl, rfl, rfl, rfl⟩
+  exact ⟨_, rfl, rfl, rfl, rfl, rfl⟩
 
 /-- a restart never lowers the stored configuration number, whichever reads fail -/
 theorem config_number_never_decreases_under_read_errors (s : St β) (id key : Nat) (hi : Identity id key s)
